@@ -187,6 +187,55 @@ type zone struct {
 	main *czone // pv ≥ 0 (or everything, when pv == 0)
 	alt  *czone // pv ≤ −1; nil when there is no partition variable
 	pv   int
+	// rel: facts that are not differences of two variables. rel[i] = {base, off,
+	// str}: variable i holds strings.IndexByte(s[base+off:], …) for the string
+	// whose length is str, i.e. −1, or base+off+i is a position inside s. Part of
+	// the abstract state: dropped when i or base is written, intersected at joins.
+	rel map[int]relFact
+}
+
+type relFact struct {
+	base   int
+	off    int64
+	strLen lin
+}
+
+func (z *zone) dropRel(x int) {
+	for k, f := range z.rel {
+		if k == x || f.base == x || f.strLen.v == x {
+			delete(z.rel, k)
+		}
+	}
+}
+
+func meetRel(a, b *zone) map[int]relFact {
+	switch {
+	case a.isBot():
+		return cloneRel(b.rel)
+	case b.isBot():
+		return cloneRel(a.rel)
+	}
+	var out map[int]relFact
+	for k, f := range a.rel {
+		if g, ok := b.rel[k]; ok && g == f {
+			if out == nil {
+				out = map[int]relFact{}
+			}
+			out[k] = f
+		}
+	}
+	return out
+}
+
+func cloneRel(m map[int]relFact) map[int]relFact {
+	if len(m) == 0 {
+		return nil
+	}
+	out := make(map[int]relFact, len(m))
+	for k, v := range m {
+		out[k] = v
+	}
+	return out
 }
 
 func newZone(n, pv int) *zone {
@@ -210,7 +259,7 @@ func bottomZone(n, pv int) *zone {
 func (z *zone) isBot() bool { return z.main.bot && (z.alt == nil || z.alt.bot) }
 
 func (z *zone) clone() *zone {
-	c := &zone{main: z.main.clone(), pv: z.pv}
+	c := &zone{main: z.main.clone(), pv: z.pv, rel: cloneRel(z.rel)}
 	if z.alt != nil {
 		c.alt = z.alt.clone()
 	}
@@ -246,6 +295,7 @@ func (z *zone) repartition() {
 }
 
 func (z *zone) forget(x int) {
+	z.dropRel(x)
 	z.main.forget(x)
 	if z.alt != nil {
 		z.alt.forget(x)
@@ -256,6 +306,7 @@ func (z *zone) forget(x int) {
 }
 
 func (z *zone) assign(x, y int, c int64) {
+	z.dropRel(x)
 	z.main.assign(x, y, c)
 	if z.alt != nil {
 		z.alt.assign(x, y, c)
@@ -270,7 +321,7 @@ func (z *zone) entails(i, j int, c int64) bool {
 }
 
 func zjoin(a, b *zone) *zone {
-	out := &zone{main: czjoin(a.main, b.main), pv: a.pv}
+	out := &zone{main: czjoin(a.main, b.main), pv: a.pv, rel: meetRel(a, b)}
 	if a.alt != nil && b.alt != nil {
 		out.alt = czjoin(a.alt, b.alt)
 	}
@@ -278,7 +329,7 @@ func zjoin(a, b *zone) *zone {
 }
 
 func zwiden(a, b *zone) *zone {
-	out := &zone{main: czwiden(a.main, b.main), pv: a.pv}
+	out := &zone{main: czwiden(a.main, b.main), pv: a.pv, rel: meetRel(a, b)}
 	if a.alt != nil && b.alt != nil {
 		out.alt = czwiden(a.alt, b.alt)
 	}
@@ -288,6 +339,13 @@ func zwiden(a, b *zone) *zone {
 func zleq(a, b *zone) bool {
 	if !czleq(a.main, b.main) {
 		return false
+	}
+	if !a.isBot() {
+		for k, f := range b.rel {
+			if g, ok := a.rel[k]; !ok || g != f {
+				return false
+			}
+		}
 	}
 	if a.alt != nil && b.alt != nil {
 		return czleq(a.alt, b.alt)
@@ -321,6 +379,50 @@ type boundsFn struct {
 	// pv: index of the partition variable (0 = none): an integer local that is
 	// given a negative constant and compared with it (a "not found yet" sentinel)
 	pv int
+	// labelled loops: the label of the loop about to be analysed, and the states
+	// that reach `break L` / `continue L` (reset by the loop L at each of its
+	// iterations; accumulated by join in between)
+	nextLabel   string
+	lbrk, lcont map[string]*zone
+	// floor query (header rule): every index/slice of floorObj located after
+	// floorAfter must start at an offset ≥ floor
+	floorObj   types.Object
+	floor      int64
+	floorAfter token.Pos
+	floorSites int
+	floorBad   string
+}
+
+func (b *boundsFn) checkFloor(z *zone, x ast.Expr, base ast.Expr, lo lin) {
+	if !b.record || b.floorObj == nil || identObj(b.p.Info, base) != b.floorObj || x.Pos() <= b.floorAfter {
+		return
+	}
+	b.floorSites++
+	if !b.entailsLE(z, lin{0, b.floor}, lo, 0) && b.floorBad == "" {
+		b.floorBad = fmt.Sprintf("%s at %s may read the input below offset %d", types.ExprString(x), b.p.pos(x), b.floor)
+	}
+}
+
+// labelFlows hands the states collected for label l to the loop that owns it.
+func (b *boundsFn) labelFlows(l string) (brk, cont *zone) {
+	brk, cont = b.bottom(), b.bottom()
+	if l == "" {
+		return
+	}
+	if z := b.lbrk[l]; z != nil {
+		brk = z
+	}
+	if z := b.lcont[l]; z != nil {
+		cont = z
+	}
+	return
+}
+
+func (b *boundsFn) resetLabel(l string) {
+	if l != "" {
+		delete(b.lbrk, l)
+		delete(b.lcont, l)
+	}
 }
 
 type flowOut struct {
@@ -620,6 +722,7 @@ func (b *boundsFn) checkExpr(z *zone, e ast.Expr) {
 			b.site(x, false, fmt.Sprintf("%s: the index or the indexed string is outside the linear model: undecided", types.ExprString(x)))
 			return
 		}
+		b.checkFloor(z, x, x.X, ix)
 		lo := b.entailsLE(z, lin{0, 0}, ix, 0)
 		hi := b.entailsLE(z, ix, ln, -1)
 		b.site(x, lo && hi, map[bool]string{true: fmt.Sprintf("%s: 0 ≤ index < len entailed", types.ExprString(x)), false: fmt.Sprintf("%s: 0 ≤ index < len is not entailed on every path (lower bound %v, upper bound %v): undecided, may panic", types.ExprString(x), lo, hi)}[lo && hi])
@@ -644,6 +747,7 @@ func (b *boundsFn) checkExpr(z *zone, e ast.Expr) {
 			b.site(x, false, fmt.Sprintf("%s: a bound or the sliced string is outside the linear model: undecided", types.ExprString(x)))
 			return
 		}
+		b.checkFloor(z, x, x.X, lo)
 		c1 := b.entailsLE(z, lin{0, 0}, lo, 0)
 		c2 := b.entailsLE(z, lo, hi, 0)
 		c3 := b.entailsLE(z, hi, ln, 0)
@@ -713,9 +817,100 @@ func (b *boundsFn) assignTo(z *zone, lhs ast.Expr, rhs ast.Expr, multi int) {
 						if okLs {
 							b.addLE(z, lin{v, 0}, ls, -1+shift)
 						}
+						// the search starts at an offset held in a variable: s[base+off:]
+						if se, isSl := ast.Unparen(call.Args[0]).(*ast.SliceExpr); isSl && shift == 0 && se.Low != nil && se.High == nil && !se.Slice3 {
+							if lo, okLo := b.linear(se.Low); okLo && lo.v != 0 && lo.v != v {
+								if sl, okSl := b.lenOf(se.X); okSl && sl.v != v {
+									if z.rel == nil {
+										z.rel = map[int]relFact{}
+									}
+									z.rel[v] = relFact{base: lo.v, off: lo.c, strLen: sl}
+								}
+							}
+						}
 						return
 					}
 				}
+				_ = call
+			}
+			// x := a + b (two variables): constant bounds of either give a difference
+			// bound on the other; and base + IndexByte(s[base:], …) is a position of s
+			if be, ok := ast.Unparen(rhs).(*ast.BinaryExpr); ok && be.Op == token.ADD {
+				l1, ok1 := b.linear(be.X)
+				l2, ok2 := b.linear(be.Y)
+				if ok1 && ok2 && l1.v != 0 && l2.v != 0 && l1.v != v && l2.v != v && l1.v != l2.v {
+					c := l1.c + l2.c
+					type bnd struct {
+						other        int
+						lo, hi       int64
+						hasLo, hasHi bool
+					}
+					var bs []bnd
+					// bounds must hold in both partitions: take the weaker
+					get := func(varIdx int) (lo, hi int64, hasLo, hasHi bool) {
+						hasLo, hasHi = true, true
+						first := true
+						for _, cz := range []*czone{z.main, z.alt} {
+							if cz == nil || cz.bot {
+								continue
+							}
+							n := cz.n
+							l, h := cz.m[0*n+varIdx], cz.m[varIdx*n+0] // 0 − x ≤ l ; x − 0 ≤ h
+							if l >= zinf {
+								hasLo = false
+							}
+							if h >= zinf {
+								hasHi = false
+							}
+							if first {
+								lo, hi = -l, h
+								first = false
+							} else {
+								if -l < lo {
+									lo = -l
+								}
+								if h > hi {
+									hi = h
+								}
+							}
+						}
+						if first {
+							hasLo, hasHi = false, false
+						}
+						return
+					}
+					for _, pr := range [][2]int{{l1.v, l2.v}, {l2.v, l1.v}} {
+						lo, hi, hasLo, hasHi := get(pr[1])
+						bs = append(bs, bnd{other: pr[0], lo: lo, hi: hi, hasLo: hasLo, hasHi: hasHi})
+					}
+					var facts []relFact
+					var factOK []bool
+					for _, pr := range [][2]int{{l1.v, l2.v}, {l2.v, l1.v}} {
+						if f, ok := z.rel[pr[1]]; ok && f.base == pr[0] && f.off == c && f.strLen.v != v {
+							_, _, hasLo, _ := get(pr[1])
+							lo, _, _, _ := get(pr[1])
+							facts = append(facts, f)
+							factOK = append(factOK, hasLo && lo >= 0)
+						}
+					}
+					z.forget(v)
+					for _, bd := range bs {
+						if bd.hasHi {
+							z.add(v, bd.other, bd.hi+c) // x − a ≤ hi(b) + c
+						}
+						if bd.hasLo {
+							z.add(bd.other, v, -(bd.lo + c)) // a − x ≤ −(lo(b) + c)
+						}
+					}
+					for i, f := range facts {
+						if factOK[i] {
+							b.addLE(z, lin{v, 0}, f.strLen, -1) // a found position: x ≤ len(s) − 1
+						}
+					}
+					return
+				}
+			}
+			if call, ok := rhs0.(*ast.CallExpr); ok {
 				if id, ok := call.Fun.(*ast.Ident); ok && shift == 0 && rhs0 == rhs && (id.Name == "min" || id.Name == "max") {
 					if _, isB := info.Uses[id].(*types.Builtin); isB {
 						z.forget(v)
@@ -778,6 +973,21 @@ func (b *boundsFn) assignTo(z *zone, lhs ast.Expr, rhs ast.Expr, multi int) {
 					}
 				case hi.v == lo.v:
 					z.assign(v, 0, hi.c-lo.c)
+				case hi.v != v && lo.v != v:
+					// two different variables: the difference is not a zone term, its
+					// constant bounds are (low − high ≤ c gives len ≥ −c)
+					for _, cz := range []*czone{z.main, z.alt} {
+						if cz == nil || cz.bot {
+							continue
+						}
+						n := cz.n
+						if c := cz.m[lo.v*n+hi.v]; c < zinf {
+							cz.add(0, v, c-hi.c+lo.c)
+						}
+						if c := cz.m[hi.v*n+lo.v]; c < zinf {
+							cz.add(v, 0, c+hi.c-lo.c)
+						}
+					}
 				}
 			}
 		}
@@ -930,8 +1140,20 @@ func (b *boundsFn) exec(z *zone, s ast.Stmt) flowOut {
 			b.checkExpr(z, r)
 		}
 	case *ast.BranchStmt:
-		if st.Label != nil {
-			b.undec = "labelled branch"
+		if st.Label != nil && (st.Tok == token.BREAK || st.Tok == token.CONTINUE) {
+			if b.lbrk == nil {
+				b.lbrk, b.lcont = map[string]*zone{}, map[string]*zone{}
+			}
+			l := st.Label.Name
+			acc := b.lbrk
+			if st.Tok == token.CONTINUE {
+				acc = b.lcont
+			}
+			if old := acc[l]; old != nil {
+				acc[l] = zjoin(old, z)
+			} else {
+				acc[l] = z
+			}
 			return out
 		}
 		switch st.Tok {
@@ -1005,6 +1227,8 @@ func (b *boundsFn) exec(z *zone, s ast.Stmt) flowOut {
 		}
 		return acc
 	case *ast.ForStmt:
+		myLabel := b.nextLabel
+		b.nextLabel = ""
 		cur := z
 		if st.Init != nil {
 			cur = b.exec(cur, st.Init).next
@@ -1019,7 +1243,10 @@ func (b *boundsFn) exec(z *zone, s ast.Stmt) flowOut {
 			} else {
 				zt, zf = head, b.bottom()
 			}
+			b.resetLabel(myLabel)
 			o := b.execList(zt, st.Body.List)
+			lb, lc := b.labelFlows(myLabel)
+			o.brk, o.cont = zjoin(o.brk, lb), zjoin(o.cont, lc)
 			back := zjoin(o.next, o.cont)
 			if st.Post != nil {
 				back = b.exec(back, st.Post).next
@@ -1043,11 +1270,16 @@ func (b *boundsFn) exec(z *zone, s ast.Stmt) flowOut {
 			} else {
 				zt, zf = head, b.bottom()
 			}
+			b.resetLabel(myLabel)
 			o := b.execList(zt, st.Body.List)
-			exit = zjoin(zf, o.brk)
+			lb, _ := b.labelFlows(myLabel)
+			exit = zjoin(zf, zjoin(o.brk, lb))
+			b.resetLabel(myLabel)
 		}
 		out.next = exit
 	case *ast.RangeStmt:
+		myLabel := b.nextLabel
+		b.nextLabel = ""
 		b.checkExpr(z, st.X)
 		var bound lin
 		hasBound := false
@@ -1076,7 +1308,11 @@ func (b *boundsFn) exec(z *zone, s ast.Stmt) flowOut {
 			if st.Value != nil {
 				b.assignTo(body, st.Value, nil, 0)
 			}
+			b.resetLabel(myLabel)
 			o := b.execList(body, st.Body.List)
+			lb, lc := b.labelFlows(myLabel)
+			o.brk, o.cont = zjoin(o.brk, lb), zjoin(o.cont, lc)
+			b.resetLabel(myLabel)
 			back := zjoin(o.next, o.cont)
 			exit = zjoin(head, zjoin(back, o.brk))
 			nh := zjoin(head, back)
@@ -1095,7 +1331,12 @@ func (b *boundsFn) exec(z *zone, s ast.Stmt) flowOut {
 	case *ast.GoStmt:
 		out.next = z
 	case *ast.LabeledStmt:
-		b.undec = "labelled statement"
+		switch st.Stmt.(type) {
+		case *ast.ForStmt, *ast.RangeStmt:
+			b.nextLabel = st.Label.Name
+			return b.exec(z, st.Stmt)
+		}
+		b.undec = "label on a statement other than a loop"
 	default:
 		b.undec = fmt.Sprintf("statement %T", s)
 	}
@@ -1116,8 +1357,14 @@ func (b *boundsFn) execList(z *zone, list []ast.Stmt) flowOut {
 // analyseBounds runs the analysis on one function. inputParams: the string
 // parameters that carry input text.
 func (p *Pkg) analyseBounds(fd *ast.FuncDecl) (*boundsFn, error) {
+	return p.analyseBoundsFloor(fd, nil, 0, token.NoPos)
+}
+
+// analyseBoundsFloor: as analyseBounds, additionally asking that every index or
+// slice expression on obj after position `after` starts at an offset ≥ floor.
+func (p *Pkg) analyseBoundsFloor(fd *ast.FuncDecl, obj types.Object, floor int64, after token.Pos) (*boundsFn, error) {
 	info := p.Info
-	b := &boundsFn{p: p, fd: fd, intVar: map[types.Object]int{}, lenVar: map[types.Object]int{}, sites: map[ast.Node]*boundsSite{}, input: map[types.Object]bool{}}
+	b := &boundsFn{p: p, fd: fd, intVar: map[types.Object]int{}, lenVar: map[types.Object]int{}, sites: map[ast.Node]*boundsSite{}, input: map[types.Object]bool{}, floorObj: obj, floor: floor, floorAfter: after}
 	b.n = 1
 	declare := func(o types.Object) {
 		if o == nil {
